@@ -344,14 +344,17 @@ func ExpectedGroups(t *Tree) map[string]string {
 
 // CmpOpt selects which fields DiffSnap compares.
 type CmpOpt struct {
-	DirMtime    func(path string) bool // compare mtime of this directory?
-	DirXattrs   func(path string) bool
-	FileXattrs  func(path string) bool // nil = compare xattrs of every regular file
-	SkipMtime   bool
-	SkipXattrs  bool
-	SkipOwner   bool
-	SecondMtime bool // compare mtimes at second granularity
-	Ignore      func(path string) bool
+	DirMtime     func(path string) bool // compare mtime of this directory?
+	DirXattrs    func(path string) bool
+	FileXattrs   func(path string) bool // nil = compare xattrs of every regular file
+	AllXattrs    bool                   // compare xattrs of symlinks and special files too
+	AllDirMtime  bool                   // compare every directory's mtime
+	AllDirXattrs bool
+	SkipMtime    bool
+	SkipXattrs   bool
+	SkipOwner    bool
+	SecondMtime  bool // compare mtimes at second granularity
+	Ignore       func(path string) bool
 }
 
 // DiffSnap compares got against want (two-directional on the path set).
@@ -402,10 +405,10 @@ func DiffSnap(got, want Snap, o CmpOpt) *Errs {
 		cmpMtime := !o.SkipMtime
 		cmpX := !o.SkipXattrs
 		if g.Kind == KDir {
-			cmpMtime = cmpMtime && o.DirMtime != nil && o.DirMtime(p)
-			cmpX = cmpX && o.DirXattrs != nil && o.DirXattrs(p)
+			cmpMtime = cmpMtime && (o.AllDirMtime || o.DirMtime != nil && o.DirMtime(p))
+			cmpX = cmpX && (o.AllDirXattrs || o.DirXattrs != nil && o.DirXattrs(p))
 		} else if g.Kind != KFile {
-			cmpX = false // the statement promises xattrs of regular files and directories
+			cmpX = cmpX && o.AllXattrs // C01 promises xattrs of regular files and directories only
 		} else if o.FileXattrs != nil {
 			cmpX = cmpX && o.FileXattrs(p)
 		}
